@@ -22,7 +22,7 @@ from fractions import Fraction
 
 import numpy as np
 
-from ..core import Machinery, close, run_tlc
+from ..core import Machinery, close, frac, run_tlc
 from ..fixtures import GridOpacity, GridKTable
 from .. import fx_files as fx
 
@@ -57,7 +57,8 @@ class CacheSandbox:
         self.gc = GlobalCache()
         self.saved = dict(self.gc.variable_dict)
         self.saved_cia_path = CIACache()._cia_path
-        self.root = tempfile.mkdtemp(prefix='verif_c14_')
+        shm = '/dev/shm'                              # thousands of small files are written: a memory file system when there is one
+        self.root = tempfile.mkdtemp(prefix='verif_c14_', dir=shm if os.path.isdir(shm) and os.access(shm, os.W_OK) else None)
         self.reset()
         return self
 
@@ -166,7 +167,7 @@ def run_names(ctx, sb, names):
 QUERIES = [(300.0, 1e2), (600.0, 1e4), (1200.0, 1e6), (450.0, 1e3), (900.0, 1e5), (1000.0, 3e2), (310.0, 9e5)]
 
 
-def compare_opacity(ctx, obj, ref, table, press, cls, vec, clause='same_table_all_formats'):
+def compare_opacity(ctx, obj, ref, table, press, cls, vec, clause='same_table_all_formats', queries=None):
     det = []
     ok = True
     for name, a, b in (('wavenumberGrid', obj.wavenumberGrid, ref.wavenumberGrid), ('temperatureGrid', obj.temperatureGrid, ref.temperatureGrid),
@@ -180,7 +181,7 @@ def compare_opacity(ctx, obj, ref, table, press, cls, vec, clause='same_table_al
         ok = False
         det.append('xsecGrid differs from the table (shape %r vs %r)' % (g.shape, table.shape))
     ctx.verdict(clause, ok, cls=cls + ':grids', detail='; '.join(det)[:400], vector=vec)
-    for T, P in QUERIES:
+    for T, P in (queries or QUERIES):
         a = np.asarray(obj.opacity(T, P), dtype=float)
         b = np.asarray(ref.opacity(T, P), dtype=float)
         good = a.shape == b.shape and np.allclose(a, b, rtol=1e-11, atol=1e-55)
@@ -321,6 +322,236 @@ def run_cia_formats(ctx, sb, rng, units, r):
         ctx.verdict('same_table_all_formats', a.shape == b.shape and np.allclose(a, b, rtol=1e-11, atol=1e-70), cls='cia:pickle-vs-hitran',
                     detail='cia(%g K, grid): pickle %r hitran %r' % (T, a.tolist()[:5], b.tolist()[:5]), vector=dict(vec, T=T))
     return 2
+
+
+# ----------------------------------------------------------------------------
+# binding A: declared pressure units (spec/OpacityFiles.tla unit table, spec/MC_OpacityUnits.tla)
+# ----------------------------------------------------------------------------
+
+REQUIRED_UNITS = ('Pa', 'hPa', 'kPa', 'MPa', 'bar', 'mbar', 'ubar', 'dbar', 'kbar', 'atm', 'Torr', 'mTorr', 'torr', 'Ba', 'dyn/cm2', 'N/m2')
+
+
+def tri(x):
+    """<<num, den, exponent10>> exported by TLC -> Fraction."""
+    return Fraction(int(x[0]), int(x[1])) * Fraction(10) ** int(x[2])
+
+
+def admissible_unit(name):
+    """A spelling is a legal declaration when astropy parses it (default or CDS format, the two the readers try) as a
+    pressure.  Returns astropy's factor to Pa (only used to cross-check the specification's table) or None."""
+    import astropy.units as u
+    for fmt in (None, 'cds'):
+        try:
+            un = u.Unit(name) if fmt is None else u.Unit(name, format=fmt)
+            return float(un.to(u.Pa))
+        except Exception:
+            continue
+    return None
+
+
+def unit_queries(si):
+    p0, p1, p2 = [float(p) for p in si]
+    return [(300.0, p0), (600.0, p1), (1200.0, p2), (450.0, (p0 * p1) ** 0.5), (900.0, (p1 * p2) ** 0.5), (1000.0, 3 * p0), (310.0, 0.9 * p2)]
+
+
+class QuietUnitErrors:
+    """astropy builds a 'did you mean ...' suggestion (difflib over every known unit, ~25 ms) into the message of every
+    failed parse; the readers fall back to the CDS format after such a failure.  Only the message text is stubbed."""
+
+    def __enter__(self):
+        import astropy.units.format.base as b
+        self.mod, self.orig = b, b.did_you_mean
+        b.did_you_mean = lambda *a, **k: ''
+
+    def __exit__(self, *a):
+        self.mod.did_you_mean = self.orig
+
+
+def run_units(ctx, sb, uvecs):
+    with QuietUnitErrors():
+        return _run_units(ctx, sb, uvecs)
+
+
+def _run_units(ctx, sb, uvecs):
+    """Every container that declares its pressure unit x every prefixed unit of the specification's table that astropy
+    accepts: the file stores the numbers the specification gives (SI grid / exact factor) and must load to the SI grid
+    and to the cross-sections of the in-memory table on that grid."""
+    from taurex.cache import OpacityCache
+    from taurex.cache.ktablecache import KTableCache
+    rng = random.Random(ctx.seed * 101 + 14)
+    x = random_table(rng, (3, len(TEMPS), len(WN)))
+    kc = random_table(rng, (3, len(TEMPS), len(WN), len(WEIGHTS)))
+    admitted = {}
+    for v in uvecs:
+        name = v['unit']
+        if name in admitted:
+            continue
+        a = admitted[name] = admissible_unit(name)
+        if a is not None and not close(a, tri(v['factor']), rel=1e-12):
+            raise Machinery('unit table of the specification and astropy disagree on %r: %r vs %r' % (name, tri(v['factor']), a))
+    if not ctx.replay_mode:
+        missing = [u for u in REQUIRED_UNITS if admitted.get(u) is None]
+        if missing:
+            raise Machinery('pressure units not exported by the specification or not accepted by astropy: %r' % (missing,))
+    n = 0
+    for i, v in enumerate(uvecs):
+        name = v['unit']
+        if admitted[name] is None:
+            continue
+        si = np.array([float(fac(p)) for p in v['si']])
+        stored = [float(tri(p)) for p in v['stored']]
+        mode = ['linear', 'exp'][(i // 2) % 2]
+        vec = dict(v, kind='unit', mode=mode, seed=ctx.seed)
+        d = sb.mkdir('unit_%d' % i)
+        sb.reset()
+        suffix = '' if v['attr'] == 'str' else ':attr-' + v['attr']
+        if v['cont'] == 'hdf5-xsec':
+            cls = 'xsec:hdf5:' + name + suffix
+            fx.write_hdf5_opacity(d, 'H2O_verif', 'H2O', WN, TEMPS, si, x, unit=name, stored_p=stored, unit_as=v['attr'],
+                                  ext=['.h5', '.hdf5'][i % 2], name_as=['bytes', 'array', 'str'][i % 3])
+            ref = GridOpacity('H2O', WN, TEMPS, si, x, mode)
+            table = x
+            OpacityCache().set_opacity_path(d)
+            OpacityCache().set_interpolation(mode)
+            get = lambda: OpacityCache()['H2O']
+        elif v['cont'] == 'hdf5-ktable':
+            cls = 'ktable-hdf5:' + name + suffix
+            fx.write_hdf5_ktable(d, 'H2O_R100.ktable', WN, TEMPS, si, kc, WEIGHTS, unit=name, stored_p=stored, unit_as=v['attr'],
+                                 ext=['.h5', '.hdf5'][i % 2])
+            ref = GridKTable('H2O', WN, TEMPS, si, kc, WEIGHTS, mode)
+            table = kc
+            sb.gc['xsec_interpolation'] = mode
+            KTableCache().set_ktable_path(d)
+            KTableCache().clear_cache()
+            get = lambda: KTableCache()['H2O']
+        else:
+            raise Machinery('unknown container %r in the unit export' % (v['cont'],))
+        try:
+            obj = get()
+        except Exception as e:
+            ctx.verdict('same_table_all_formats', False, cls=cls, detail='declared unit %r: not loadable through the cache: %r' % (name, e), vector=vec)
+            continue
+        try:
+            compare_opacity(ctx, obj, ref, table, si, cls, vec, queries=unit_queries(si))
+        except Exception as e:
+            ctx.verdict('same_table_all_formats', False, cls=cls, detail='declared unit %r: evaluation failed: %r' % (name, e), vector=vec)
+        n += 1
+        shutil.rmtree(d, ignore_errors=True)
+    sb.reset()
+    return n, sorted(k for k, a in admitted.items() if a is not None)
+
+
+# ----------------------------------------------------------------------------
+# binding A/C: HITRAN files as sets of blocks written in any order (spec/HitranCia.tla)
+# ----------------------------------------------------------------------------
+
+BAND_WN = {1: [20.0, 40.0, 60.0, 80.0], 2: [100.0, 120.5, 140.25], 3: [200.0, 210.0, 220.0, 230.0, 240.0]}
+
+
+def hitran_class(v):
+    """Input class of a file: how its blocks are ordered, and where bands are missing on the master temperature grid."""
+    per = {}
+    for b, t in v['file']:
+        per.setdefault(b, []).append(t)
+    seq = [b for b, _ in v['file']]
+    runs = sum(1 for i in range(len(seq)) if i == 0 or seq[i] != seq[i - 1])
+    order = 'band-unsorted' if any(l != sorted(l) for l in per.values()) else 'ascending'
+    if runs > len(per):
+        order += '+interleaved'
+    gaps = set()
+    for l in per.values():
+        below = [t for t in v['master'] if t < min(l)]
+        if below:
+            gaps.add('below2' if len(below) >= 2 else 'below')
+        if any(t > max(l) for t in v['master']):
+            gaps.add('above')
+        if any(min(l) < t < max(l) and t not in l for t in v['master']):
+            gaps.add('inside')
+    return order + ':' + ('+'.join(sorted(gaps)) or 'complete')
+
+
+def run_hitran(ctx, sb, vecs, units, tag):
+    """Each vector is a file (sequence of (band, temperature) blocks as TLC wrote them) with the specification's physical
+    table as coefficient vectors.  The file is written as HITRAN text in that order, the physical table as a pickle; both
+    are loaded through the real CIACache and must be the same function of (T, wavenumber)."""
+    from taurex.cache import CIACache
+    scale = 1 / fac(units['hitran'])
+    d1, d2 = sb.mkdir('hitran_%s_pickle' % tag), sb.mkdir('hitran_%s_text' % tag)
+    for v in vecs:
+        temps, master, bands = v['temps'], v['master'], v['bands']
+        rng = random.Random('%d:%r' % (ctx.seed, v['file']))
+        vals = {(b, t): [hitran_value(rng) for _ in BAND_WN[b]] for b, t in v['file']}
+        blocks = [(float(temps[t - 1]), BAND_WN[b], [float(q) for q in vals[(b, t)]]) for b, t in v['file']]
+        wn_all = [w for b in bands for w in BAND_WN[b]]
+        full = []
+        for k in range(len(master)):
+            row = []
+            for j, b in enumerate(bands):
+                coef = [(i + 1, frac(c)) for i, c in enumerate(v['table'][k][j]) if frac(c) != 0]
+                for p in range(len(BAND_WN[b])):
+                    row.append(sum((c * vals[(b, t)][p] for t, c in coef), Fraction(0)))
+            full.append(row)
+        mtemps = [float(temps[t - 1]) for t in master]
+        table = np.array([[float(q) for q in row] for row in full])
+        cls0 = hitran_class(v)
+        vec = dict(v, kind='hitran', seed=ctx.seed, tag=tag)
+        fx.write_pickle_cia(d1, 'H2-H2', wn_all, mtemps, table)
+        fx.write_hitran_cia(d2, 'H2-H2', blocks, scale=float(scale))
+        objs = {}
+        for fmt, d in (('cia-pickle', d1), ('cia-hitran', d2)):
+            sb.reset()
+            CIACache().set_cia_path(d)
+            try:
+                objs[fmt] = CIACache()['H2-H2']
+            except Exception as e:
+                ctx.verdict('same_table_all_formats', False, cls='%s:%s' % (fmt, cls0), detail='file %r not loadable through the cache: %r' % (v['file'], e), vector=vec)
+        if len(objs) < 2:
+            continue
+        for fmt, obj in objs.items():
+            cls = '%s:%s' % (fmt, cls0)
+            try:
+                ok = np.array_equal(np.asarray(obj.wavenumberGrid, dtype=float), np.array(wn_all)) and \
+                    np.array_equal(np.asarray(obj.temperatureGrid, dtype=float), np.array(mtemps)) and obj.pairName == 'H2-H2'
+                ctx.verdict('same_table_all_formats', ok, cls=cls + ':grids',
+                            detail='file %r: wn %r T %r pair %r' % (v['file'], np.asarray(obj.wavenumberGrid).tolist(), np.asarray(obj.temperatureGrid).tolist(), obj.pairName), vector=vec)
+                for q in v['queries']:
+                    w = frac(q['w'])
+                    want = np.array([float((1 - w) * a + w * b) for a, b in zip(full[q['lo'] - 1], full[q['hi'] - 1])])
+                    got = np.asarray(obj.cia(float(q['T'])), dtype=float)
+                    ctx.verdict('same_table_all_formats', got.shape == want.shape and np.allclose(got, want, rtol=1e-11, atol=1e-70),
+                                cls=cls + (':node' if q['lo'] == q['hi'] else ':between'),
+                                detail='file %r (T index per band, file order): cia(%g K) = %r, physical table %r' % (v['file'], q['T'], got.tolist(), want.tolist()),
+                                vector=dict(vec, T=q['T']))
+            except Exception as e:
+                ctx.verdict('same_table_all_formats', False, cls=cls + ':eval', detail='file %r: evaluation failed: %r' % (v['file'], e), vector=vec)
+        grid = np.array(sorted(wn_all + [30.0, 110.0, 235.0]))
+        try:
+            for T in (mtemps[0] - 50.0, 0.5 * (mtemps[0] + mtemps[1]), mtemps[-1], mtemps[-1] + 500.0):
+                a = np.asarray(objs['cia-pickle'].cia(T, grid), dtype=float)
+                b = np.asarray(objs['cia-hitran'].cia(T, grid), dtype=float)
+                ctx.verdict('same_table_all_formats', a.shape == b.shape and np.allclose(a, b, rtol=1e-11, atol=1e-70), cls='cia:pickle-vs-hitran:' + cls0,
+                            detail='file %r: cia(%g K, grid): pickle %r hitran %r' % (v['file'], T, a.tolist()[:6], b.tolist()[:6]), vector=dict(vec, T=T))
+        except Exception as e:
+            ctx.verdict('same_table_all_formats', False, cls='cia:pickle-vs-hitran:' + cls0 + ':eval', detail='file %r: evaluation failed: %r' % (v['file'], e), vector=vec)
+    sb.reset()
+    ctx.traces += len(vecs)
+    return len(vecs)
+
+
+def select_files(vecs, limit, rng):
+    """Unique files; when more than `limit`, keep every file of up to 4 blocks and a seeded sample of the longer ones."""
+    seen, uniq = set(), []
+    for v in vecs:
+        k = repr(v['file'])
+        if k not in seen:
+            seen.add(k)
+            uniq.append(v)
+    if not limit or len(uniq) <= limit:
+        return uniq
+    short = [v for v in uniq if len(v['file']) <= 4]
+    rest = [v for v in uniq if len(v['file']) > 4]
+    rng.shuffle(rest)
+    return short + rest[:max(0, limit - len(short))]
 
 
 # ----------------------------------------------------------------------------
@@ -640,7 +871,11 @@ def run(ctx):
                       histories='all histories of 4 actions (xsec sampled in quick; 5 actions for ktable/cia in thorough) + TLC-simulated histories of 12 actions, for OpacityCache, KTableCache, CIACache',
                       formats='random 3x3x6 tables (k/64 units) in pickle(bar), HDF5(bar/Pa/atm/mbar; .h5/.hdf5; name as bytes/array/str), Exo-Transmit text; '
                               'k-table pickle + HDF5(bar/Pa/atm); CIA pickle vs HITRAN text with three wavenumber ranges given at different temperatures',
-                      names='all names of length <= 4 over {H,C,e,o,1,2,-,_} + 9 documented patterns')
+                      names='all names of length <= 4 over {H,C,e,o,1,2,-,_} + 9 documented patterns',
+                      units='HDF5 cross-sections and HDF5 k-tables x 14 SI prefixes x {Pa, N/m2, bar, atm, Torr, torr, Ba, barye, dyn/cm2} (spellings astropy accepts) '
+                            'x units attribute as str / bytes x %d pressure grid(s)' % (1 if q else 3),
+                      hitran='files = every sequence of distinct (band, temperature) blocks with >= 2 temperatures over 2 bands x 3 temperatures (1 944 files), '
+                             'TLC-simulated files over 3 bands x 4 temperatures; design model %s' % ('2 bands x 3 temperatures' if q else '2 bands x 4 temperatures'))
     ctx.assumptions = ['object identity observed with `is` while every served object is kept alive',
                        'file loads counted by wrapping the reader constructors from outside the repository (HDF5 discovery opens with in_memory=False are not loads)',
                        'HITRAN values chosen exactly representable at the %10.3E precision of the format',
@@ -653,7 +888,19 @@ def run(ctx):
              ('refuted-load-not-stored', 'MC_OpacityCache', 'MC_OpacityCache_nostore_refuted.cfg', dict(workers=2), 'LoadedOncePerEpoch'),
              ('nonvacuous-two-objects', 'MC_OpacityCache', 'MC_OpacityCache_nonvac1.cfg', dict(workers=2), 'NeverTwoObjects'),
              ('nonvacuous-hit', 'MC_OpacityCache', 'MC_OpacityCache_nonvac2.cfg', dict(workers=2), 'NeverHit'),
-             ('export-names', 'MC_OpacityName', 'EX_OpacityName.cfg', dict(workers=1), None)]
+             ('export-names', 'MC_OpacityName', 'EX_OpacityName.cfg', dict(workers=1), None),
+             # HITRAN files as sets of (band, temperature) blocks in any order; the reading algorithm against the physical table
+             ('hitran-design', 'MC_HitranCia', 'MC_HitranCia_%s.cfg' % t, dict(workers=2 if q else 8), None),
+             ('refuted-hitran-no-sort-before-fill', 'MC_HitranCia', 'MC_HitranCia_nosort_refuted.cfg', dict(workers=1), 'ReaderMatchesTable'),
+             ('refuted-hitran-running-bounds', 'MC_HitranCia', 'MC_HitranCia_runningbounds_refuted.cfg', dict(workers=1), 'ReaderMatchesTable'),
+             ('refuted-hitran-hold-outside', 'MC_HitranCia', 'MC_HitranCia_hold_refuted.cfg', dict(workers=1), 'ReaderMatchesTable'),
+             ('nonvacuous-hitran-unsorted-band', 'MC_HitranCia', 'MC_HitranCia_nonvac1.cfg', dict(workers=1), 'NeverUnsortedBand'),
+             ('nonvacuous-hitran-interior-gap', 'MC_HitranCia', 'MC_HitranCia_nonvac2.cfg', dict(workers=1), 'NeverInteriorGap'),
+             ('export-hitran', 'MC_HitranCia', 'EX_HitranCia_quick.cfg', dict(workers=1), None),
+             ('simulate-hitran', 'MC_HitranCia', 'SIM_HitranCia.cfg', dict(workers=1, simulate='num=%d' % (150 if q else 2500), depth=14, seed=ctx.seed + 1), None),
+             # declared pressure units: container x prefixed unit x attribute storage (x pressure grid)
+             ('export-units', 'MC_OpacityUnits', 'EX_OpacityUnits_%s.cfg' % t, dict(workers=1), None),
+             ('nonvacuous-units', 'MC_OpacityUnits', 'MC_OpacityUnits_nonvac.cfg', dict(workers=1), 'AllBar')]
     nsim = 120 if q else 1500
     for k in ('xsec', 'ktable', 'cia'):
         hi = 'HI5_OpacityCache_%s.cfg' % k if (not q and k != 'xsec') else 'HI_OpacityCache_%s.cfg' % k
@@ -661,8 +908,8 @@ def run(ctx):
         jobs.append(('simulate-%s' % k, 'MC_OpacityCache', 'SIM_OpacityCache_%s.cfg' % k,
                      dict(workers=1, simulate='num=%d' % nsim, depth=13, seed=ctx.seed + 1), None))
     from concurrent.futures import ThreadPoolExecutor
-    pool = ThreadPoolExecutor(max_workers=6)
-    futs = {j[0]: pool.submit(run_tlc, j[1], j[2], allow_violation=True, timeout=1500, coverage=j[0].startswith('cache-'), **j[3]) for j in jobs}
+    pool = ThreadPoolExecutor(max_workers=8)
+    futs = {j[0]: pool.submit(run_tlc, j[1], j[2], allow_violation=True, timeout=1500, coverage=j[0].startswith('cache-') or j[0] == 'hitran-design', **j[3]) for j in jobs}
     results = {}
     for label, module, cfg, kw, refute in jobs:
         res = futs[label].result()
@@ -677,6 +924,8 @@ def run(ctx):
         elif res.violated != refute:
             raise Machinery('expected TLC to refute %s in %s/%s, got %r' % (refute, module, cfg, res.violated))
     pool.shutdown()
+    import time as _time
+    t_tlc = _time.time() - ctx.t0
     need = {'xsec': ('SetPath', 'SetInterpolation', 'SetMemoryMode', 'Get', 'AddOpacity', 'Clear'),
             'ktable': ('SetPath', 'Get', 'AddOpacity', 'Clear'), 'cia': ('SetPath', 'Get', 'AddOpacity')}
     for k, acts in need.items():
@@ -684,7 +933,15 @@ def run(ctx):
         for a in acts:
             if cov.get(a, (0, 0))[1] == 0:
                 raise Machinery('vacuous: action %s never taken in the %s cache model' % (a, k))
+    for a in ('Write', 'CloseFile'):
+        if results['hitran-design'].action_cov.get(a, (0, 0))[1] == 0:
+            raise Machinery('vacuous: action %s never taken in the HITRAN file model' % a)
     ctx.exhaustive = True
+    hfiles = results['export-hitran'].tagged('CIA')
+    hsim = results['simulate-hitran'].tagged('CIA')
+    uvecs = results['export-units'].tagged('UVEC')
+    if len(hfiles) < 1900 or not hsim or len(uvecs) < 500:
+        raise Machinery('HITRAN / unit export incomplete: %d files, %d simulated files, %d unit vectors' % (len(hfiles), len(hsim), len(uvecs)))
     names = results['export-names'].tagged('NAME')
     units = results['export-names'].tagged('UNIT')
     if len(names) < 4000 or not units:
@@ -694,6 +951,13 @@ def run(ctx):
     with CacheSandbox() as sb:
         nfiles = run_names(ctx, sb, names)
         nfmt = run_formats(ctx, sb, units, 2 if q else 12)
+        t1 = _time.time()
+        nunit, admitted = run_units(ctx, sb, uvecs)
+        t2 = _time.time()
+        nhit = run_hitran(ctx, sb, select_files(hfiles, 0, rng), units, 'exhaustive-2x3')
+        nhit2 = run_hitran(ctx, sb, select_files(hsim, 0, rng), units, 'simulated-3x4')
+        t3 = _time.time()
+        ctx.note('wall: TLC runs %.0f s, names+formats %.0f s, units %.0f s, HITRAN files %.0f s' % (t_tlc, t1 - ctx.t0 - t_tlc, t2 - t1, t3 - t2))
         nh = {}
         for k in ('xsec', 'ktable', 'cia'):
             hs = results['histories-%s' % k].tagged('HIST')
@@ -707,6 +971,9 @@ def run(ctx):
             n3 = run_traces(ctx, sb, k, 40 if q else 400, 14, rng)
             nh[k] = (n1, n2, n3)
     root_logger.setLevel(logging.ERROR)
+    ctx.note('declared pressure units: %d containers loaded, %d unit spellings of the specification accepted by astropy (%s); HITRAN files as block sequences: '
+             '%d (every arrangement of every subset of 2 bands x 3 temperatures) + %d (TLC-simulated, 3 bands x 4 temperatures)'
+             % (nunit, len(admitted), ' '.join(admitted), nhit, nhit2))
     ctx.note('names through files: %d; containers loaded: %d; histories replayed (exhaustive depth 4, simulated depth 12) and random walks validated by TLC: %r' % (nfiles, nfmt, nh))
 
 
@@ -726,6 +993,12 @@ def replay(ctx, violations):
                     replay_history(ctx, real, vec['h'], counter, 'replay')
             elif kind in ('name', 'name-file'):
                 run_names(ctx, sb, [vec])
+            elif kind == 'unit':
+                ctx.seed = vec.get('seed', ctx.seed)
+                run_units(ctx, sb, [vec])
+            elif kind == 'hitran':
+                ctx.seed = vec.get('seed', ctx.seed)
+                run_hitran(ctx, sb, [vec], units, 'replay')
             else:
                 ctx.seed = vec.get('seed', ctx.seed)
                 run_formats(ctx, sb, units, vec.get('round', 0) + 1)
